@@ -544,9 +544,9 @@ pub fn corrupt(buf: &mut [u8], l: &Layout, rng: &mut Rng) -> Corruption {
 
 /// The error kinds a reader may report for a buffer that does not hold its
 /// declared sections: the kind of the first section that does not fit; when
-/// the buffer ends inside the padding *between* two sections, the kind of
-/// either neighbour is "the corresponding error kind". For the string section
-/// only `expected` (the declared length) is fixed.
+/// the buffer ends inside the padding in front of a section, that section is the
+/// first one that does not fit. For the string section only `expected` (the
+/// declared length) is fixed.
 pub fn acceptable_errors(buf: &[u8], expect_version: u32) -> Option<Vec<ErrKind>> {
     let e = layout_walk(buf, expect_version).err()?;
     let mut v = vec![e];
@@ -563,11 +563,11 @@ pub fn acceptable_errors(buf: &[u8], expect_version: u32) -> Option<Vec<ErrKind>
         let bp_off = members_end + pad(members_end);
         let bp_end = bp_off + nb * MEMBER_LEN as u128;
         let str_off = bp_end + pad(bp_end);
-        if len >= classes_end && len < members_off {
-            v.push(ErrKind::InvalidClasses);
-        }
+        // A buffer that ends inside the padding in front of a section holds every earlier
+        // section completely: it is shorter than the section BEHIND the padding, and that
+        // section's kind is the corresponding one (the kind of a complete section is not).
+        let _ = (classes_end, members_off);
         if len >= bp_end && len < str_off {
-            v.push(ErrKind::InvalidMembers);
             v.push(ErrKind::UnexpectedStringBytes { expected: sb, found: 0 });
         }
     }
